@@ -16,11 +16,14 @@ Local Open Scope Z_scope.
 Inductive cop :=
 | CDeclare (q : bytes) | CPublish (body : bytes) (mand : bool) | CGet
 | CClose (code : Z) | CAck | CConsume (t : bytes) | CCancel (t : bytes)
-| COpenChan | CCheck | CConnClose | CConnOpen.
+| COpenChan | CCheck | CConnClose | CConnOpen
+| CDrain (n : nat)            (* process_data_events until n messages were handed to the callback *)
+| CStop.                      (* stop_consuming *)
 
 Inductive cres :=
 | CRNone | CRBool (b : bool) | CRName (q : bytes) | CRChan (id : nat) | CRTag (t : bytes)
-| CRMsg (body : bytes) | CRErr (e : err) | CROther | CRHang.
+| CRMsg (body : bytes) | CRErr (e : err) | CROther | CRHang
+| CRBodies (l : list bytes) (e : option err).   (* bodies handed to the callback, then how the call ended *)
 
 Record cev := { ce_thread : nat; ce_idx : nat; ce_chan : nat; ce_op : cop; ce_res : cres;
                 ce_dur : Z;                         (* virtual milliseconds the call took *)
@@ -36,7 +39,9 @@ Record cobs := {
   co_violations : nat;                (* protocol violations noted by the reference broker *)
   co_fired : nat;                     (* broker-initiated events that fired *)
   co_conn : st;                       (* connection state at the end *)
-  co_inv : nat * nat * nat            (* connected sockets, live library threads, armed timers *)
+  co_inv : nat * nat * nat;           (* connected sockets, live library threads, armed timers *)
+  co_btags : list (nat * list bytes); (* the broker's consumer table at the end, per channel *)
+  co_delivered : list (nat * bytes)   (* (channel, body) of every message the broker delivered, in order *)
 }.
 Inductive cevent :=
 | EvChClose (c : nat) (code : Z) | EvConnClose (code : Z) | EvDrop
@@ -138,6 +143,43 @@ Definition conc_connclose_code_ok (i : cscenario) (o : cobs) : bool :=
   | _ => true
   end.
 
+(* ---------- C14: consumer bookkeeping under concurrent consume / cancel ---------- *)
+Definition same_tags (a b : list bytes) : bool :=
+  forallb (fun x => existsb (bytes_eqb x) b) a && forallb (fun x => existsb (bytes_eqb x) a) b.
+Definition conc_tags_ok (i : cscenario) (o : cobs) : bool :=
+  forallb (fun e => completed (ce_res e)) (co_events o) &&
+  (* once everything has returned the client's list is the broker's table, channel by channel *)
+  forallb (fun cs =>
+    let c := fst cs in
+    let sn := snd cs in
+    if st_eqb (sn_state sn) OPEN && st_eqb (sn_conn sn) OPEN then
+      match find (fun bt => Nat.eqb (fst bt) c) (co_btags o) with
+      | Some (_, bt) => same_tags (sn_tags sn) bt
+      | None => match sn_tags sn with [] => true | _ => false end
+      end
+    else true) (co_final o) &&
+  Nat.eqb (co_violations o) 0 && co_parse_ok o.
+
+(* ---------- C03: a consuming thread next to the reader and other callers ---------- *)
+Fixpoint is_prefix_b (a b : list bytes) : bool :=
+  match a, b with
+  | [], _ => true
+  | x :: ar, y :: br => bytes_eqb x y && is_prefix_b ar br
+  | _, [] => false
+  end.
+Definition conc_consume_ok (i : cscenario) (o : cobs) : bool :=
+  forallb (fun e =>
+    match ce_op e, ce_res e with
+    | CDrain n, CRBodies l er =>
+      (* what the callback saw is what the broker delivered on that channel: in order, intact,
+         nothing twice; all n of them unless the call ended with an error *)
+      let sent := map snd (filter (fun d => Nat.eqb (fst d) (ce_chan e)) (co_delivered o)) in
+      is_prefix_b l sent &&
+      match er with None => Nat.eqb (length l) n | Some _ => true end
+    | CDrain _, _ => false
+    | _, r => completed r
+    end) (co_events o) && co_parse_ok o.
+
 (* ---------- C06: the transport dies while several threads work ---------- *)
 Definition conc_fault_ok (i : cscenario) (o : cobs) : bool :=
   (* nobody blocks for ever, nothing but AMQPConnectionError comes out *)
@@ -158,6 +200,19 @@ Definition conc_openfault_ok (i : cscenario) (o : cobs) : bool :=
                     | _ => true
                     end) (co_events o) &&
   match co_inv o with (0, 0, 0)%nat => true | _ => false end.
+
+(* returned messages: each is reported once - never more AMQPMessageErrors than returns,
+   and nothing but AMQP errors *)
+Definition conc_return_once_ok (i : cscenario) (o : cobs) : bool :=
+  forallb (fun e => completed (ce_res e)) (co_events o) &&
+  Nat.leb (length (filter (fun e => match ce_res e with
+                                    | CRErr er => ekind_eqb (e_kind er) EMsg
+                                    | CRBodies _ (Some er) => ekind_eqb (e_kind er) EMsg
+                                    | _ => false end) (co_events o)))
+          (length (filter (fun ev => match ev with EvReturn _ _ => true | _ => false end) (cs_events i))) &&
+  forallb (fun e => match ce_res e with
+                    | CRErr er => ekind_eqb (e_kind er) EMsg
+                    | _ => true end) (co_events o) && co_parse_ok o.
 
 (* ---------- C01: frames on the wire ---------- *)
 (* per channel: Publish, Header n, bodies adding up to n - with nothing of that channel in between *)
